@@ -48,6 +48,7 @@ inductive Site where
   | swapSectors | trimSectors | updateSector | sectorRoot
   | rpcSectorRoots | rpcRead | rpcWrite | rpcFormContract
   | validateStdRevision | recorderFlush | processFundAccountPayment
+  | handleRPCRenew | rpcRenewAndClearContract
 deriving DecidableEq, Repr
 
 /-- the name the harness derives from the Go stack trace -/
@@ -67,6 +68,7 @@ def Site.name : Site → String
   | .rpcFormContract => "rpcFormContract"
   | .validateStdRevision => "validateStdRevision" | .recorderFlush => "registryAccessRecorder.Flush"
   | .processFundAccountPayment => "processFundAccountPayment"
+  | .handleRPCRenew => "handleRPCRenew" | .rpcRenewAndClearContract => "rpcRenewAndClearContract"
 
 /-- Which repairs the code under test contains.  `false` = the guard as written
 in the pinned snapshot. -/
@@ -631,6 +633,158 @@ def paid (f : Fixes) (s : HostState) (r : PaidReq) : POut × HostState :=
         | .panic site => (.panic site, s)
         | .reject _ => (.accept, s)
         | .pass _ => (.accept, (spendCost s r).2)
+
+/-! ## contract renewal and formation (rhp/v3/rpc.go handleRPCRenew, rhp/v2/rpc.go
+rpcRenewAndClearContract / rpcFormContract)
+
+Everything the handlers index or convert is explicit: the transaction set, the
+file contracts / revisions of its last transaction, the output lists of the
+clearing revision and of the new contract, the renter key and the revision
+signature (slice → array conversions).  The value-level clauses of the validators
+(payout arithmetic — all overflow-checked since 839f27b —, addresses, unlock
+hashes, signature verification, the transaction pool) are facts of the request. -/
+
+structure RenewReq where
+  /-- the request fits the handler's read limit and decodes -/
+  readable : Bool := true
+  txns : Nat := 1          -- len(TransactionSet)
+  fcs  : Nat := 1          -- len(lastTxn.FileContracts)
+  revs : Nat := 1          -- len(lastTxn.FileContractRevisions)   (RHP3)
+  algOk  : Bool := true    -- RenterKey.Algorithm == ed25519
+  keyLen : Nat := 32       -- len(RenterKey.Key)
+  hardforkOk : Bool := true    -- WindowStart below the v2 require height
+  clrKnown   : Bool := true    -- RHP3: the clearing revision names a contract that can be locked
+  clrShapeOk : Bool := true    -- file size, root, windows, revision number, unlock hash/conditions of the clearing revision
+  clrValid   : Nat := 2        -- its valid outputs (RHP2: the number of final values)
+  clrMissed  : Nat := 2        -- its missed outputs
+  clrValuesOk : Bool := true   -- transfer from renter to host, equal valid/missed values, at least the expected payment
+  fsigOk : Bool := true        -- final revision signature verifies
+  baseOk : Bool := true        -- RenewalBaseCosts does not overflow 128 bits
+  fcFieldsOk : Bool := true    -- revision number, file size, root, proof window of the new contract
+  fcValid  : Nat := 2
+  fcMissed : Nat := 3
+  fcRestOk : Bool := true      -- addresses, unlock hash, payouts/collateral of the new contract
+  fundOk : Bool := true        -- the host wallet can fund its collateral
+  sigsReadable : Bool := true  -- the second message arrives
+  rsigMetaOk : Bool := true    -- parent id, key index, covered fields of the revision signature
+  rsigLen : Nat := 64          -- len(RevisionSignature.Signature)
+  rsigOk : Bool := true        -- it verifies
+  poolOk : Bool := true        -- the transaction set enters the pool
+
+/-- `ValidateClearingRevision` on a revision with `v` valid and `m` missed outputs -/
+def clearingSteps (r : RenewReq) (site : Site) : List Step :=
+  [ .guard r.clrShapeOk,
+    .guard (decide (r.clrMissed = 2)),
+    .guard (decide (r.clrValid = r.clrMissed)),
+    .slice 0 1 r.clrMissed site,       -- final.MissedRenterPayout()
+    .slice 1 2 r.clrValid site,        -- final.ValidHostPayout()
+    .guard r.clrValuesOk,
+    .slice 0 r.clrValid r.clrMissed site ]   -- the loop indexes MissedProofOutputs[i] for i < len(ValidProofOutputs)
+
+/-- `validateContractRenewal` / `validateContractFormation`: lengths are checked before the outputs are indexed -/
+def contractSteps (r : RenewReq) (site : Site) : List Step :=
+  [ .guard r.fcFieldsOk,
+    .guard (decide (r.fcValid = 2)),
+    .guard (decide (r.fcMissed = 3)),
+    .slice 1 2 r.fcValid site,         -- ValidHostOutput()
+    .slice 1 2 r.fcMissed site,        -- MissedHostOutput()
+    .slice 2 3 r.fcMissed site,        -- MissedProofOutputs[2]
+    .guard r.fcRestOk ]
+
+/-- `validateRenterRevisionSignature` then `*(*types.Signature)(sig.Signature)` -/
+def revSigSteps (r : RenewReq) (site : Site) : List Step :=
+  [ .guard r.rsigMetaOk,
+    .guard (decide (r.rsigLen = 64)),
+    .need (decide (64 ≤ r.rsigLen)) site,
+    .guard r.rsigOk ]
+
+def renew3Steps (r : RenewReq) : List Step :=
+  [ .guard r.readable,
+    -- validRenewalTxnSet
+    .guard (decide (r.txns ≠ 0)),
+    .slice (r.txns - 1) r.txns r.txns .handleRPCRenew,
+    .guard (decide (r.fcs = 1)),
+    .guard (decide (r.revs = 1)),
+    -- renter key
+    .guard (r.algOk && decide (r.keyLen = 32)),
+    .need (decide (32 ≤ r.keyLen)) .handleRPCRenew,                 -- *(*types.PublicKey)(req.RenterKey.Key)
+    .slice 0 (r.txns - 1) r.txns .handleRPCRenew,                   -- TransactionSet[:len-1]
+    .slice (r.txns - 1) r.txns r.txns .handleRPCRenew,              -- TransactionSet[len-1]
+    .slice 0 1 r.revs .handleRPCRenew,                              -- FileContractRevisions[0]
+    .slice 0 1 r.fcs .handleRPCRenew,                               -- FileContracts[0]
+    .guard r.hardforkOk,
+    .guard r.clrKnown ] ++
+  clearingSteps r .handleRPCRenew ++
+  [ .guard r.fsigOk, .guard r.baseOk ] ++
+  contractSteps r .handleRPCRenew ++
+  [ .guard r.fundOk, .guard r.sigsReadable,
+    .slice 0 1 r.fcs .handleRPCRenew ] ++                           -- InitialRevision: FileContracts[0]
+  revSigSteps r .handleRPCRenew ++
+  [ .need (decide (64 ≤ r.rsigLen)) .handleRPCRenew,               -- RenterSignature conversion
+    .guard r.poolOk ]
+
+def renew2Steps (r : RenewReq) : List Step :=
+  [ .guard r.readable,
+    -- convertToPublicKey
+    .guard r.algOk, .guard (decide (r.keyLen = 32)),
+    .need (decide (32 ≤ r.keyLen)) .rpcRenewAndClearContract,
+    .guard (decide (r.txns ≠ 0)),
+    .slice (r.txns - 1) r.txns r.txns .rpcRenewAndClearContract,
+    .guard (decide (r.fcs = 1)),
+    .slice 0 (r.txns - 1) r.txns .rpcRenewAndClearContract,
+    .slice 0 1 r.fcs .rpcRenewAndClearContract,
+    .guard r.hardforkOk,
+    .guard (decide (r.clrValid = 2)) ] ++                          -- rhp.ClearingRevision: one value per output
+  clearingSteps { r with clrMissed := r.clrValid } .rpcRenewAndClearContract ++
+  [ .guard r.baseOk ] ++
+  contractSteps r .rpcRenewAndClearContract ++
+  [ .guard r.fundOk, .guard r.sigsReadable,
+    .guard (decide (r.rsigLen = 64)),
+    .slice 0 1 r.fcs .rpcRenewAndClearContract,                     -- InitialRevision
+    .guard r.fsigOk,
+    .need (decide (64 ≤ r.rsigLen)) .rpcRenewAndClearContract,     -- *(*types.Signature)(RevisionSignature.Signature)
+    .guard r.rsigOk,
+    .guard r.poolOk ]
+
+/-- `rpcFormContract` in full (the `v2form` op stops at the renter key) -/
+def form2Steps (f : Fixes) (r : RenewReq) : List Step :=
+  [ .guard r.readable,
+    .guard (decide (r.txns ≠ 0)),
+    .slice (r.txns - 1) r.txns r.txns .rpcFormContract,
+    .guard (decide (r.fcs = 1)),
+    .guard r.algOk ] ++
+  (if f.v2FormKeyLen then [ .guard (decide (r.keyLen = 32)) ] else []) ++
+  [ .need (decide (32 ≤ r.keyLen)) .rpcFormContract,
+    .slice 0 (r.txns - 1) r.txns .rpcFormContract,
+    .slice 0 1 r.fcs .rpcFormContract,
+    .guard r.hardforkOk ] ++
+  contractSteps r .rpcFormContract ++
+  [ .guard r.fundOk,
+    .slice 0 1 r.fcs .rpcFormContract,                              -- InitialRevision
+    .guard r.sigsReadable ] ++
+  revSigSteps r .rpcFormContract ++
+  [ .guard r.poolOk,
+    .need (decide (64 ≤ r.rsigLen)) .rpcFormContract ]
+
+inductive RenewKind where
+  | renew3 | renew2 | form2
+deriving DecidableEq, Repr
+
+def renewSteps (f : Fixes) : RenewKind → RenewReq → List Step
+  | .renew3, r => renew3Steps r
+  | .renew2, r => renew2Steps r
+  | .form2, r => form2Steps f r
+
+/-- revision number of a cleared contract -/
+def MaxRevision : Nat := U64 - 1
+
+/-- outcome and effect on the attacked contract: an accepted renewal clears it (its sectors move to the
+new contract), an accepted formation does not touch it, a rejected request changes nothing -/
+def renew (f : Fixes) (k : RenewKind) (s : HostState) (r : RenewReq) : POut × HostState :=
+  match run { budget := 0 } (renewSteps f k r) with
+  | .panic site => (.panic site, s)
+  | .reject _ => (.reject, s)
+  | .pass _ => (.accept, if k = .form2 then s else { s with rev := MaxRevision, roots := [] })
 
 /-! ## RHP2 range checks (rhp/v2/rpc.go + the validators of core it relies on) -/
 
